@@ -1,4 +1,1142 @@
-//! C02 — stub, replaced when the property's harness lands.
-use crate::util::{Em, Rng};
+//! C02 — dataset operations keep record, target and weight of a sample together.
+//!
+//! One request line = one *history*: a tagged dataset and a sequence of operations, each applied
+//! by the real linfa code to the dataset the previous step returned (`pick` selects which one when
+//! an operation returns several).  Tags: record cell (id, j) = id*8 + j, weight of id = 1000 + id,
+//! feature name of column j = "f<j>", target name of column c = "t<c>"; targets are labels
+//! (codes 0..5 of `usize`, `bool` or `&str` labels).  Every dataset an operation returns is dumped
+//! through the public accessors (`records()`, `as_targets()`, `weights()`, `feature_names()`,
+//! `target_names()`, `label_count()`), compared with the Lean model's dump, and checked by the
+//! oracle against the input of that step (selection law + alignment) and against the original
+//! tags (a row's record cells, target(s) and weight all carry the same id).
+//! RNG-driven operations: the chosen indices are read back from the record tags of the result
+//! and written into the request, so `rand`'s stream is not part of the model.
+use crate::util::*;
+use linfa::dataset::{AsTargets, CountedTargets, Dataset, DatasetBase, DatasetView, Label, Labels, Records};
+use ndarray::{s, Array1, Array2, ArrayBase, Axis, Data, Dimension, Ix1, Ix2};
+use rand::{rngs::SmallRng, SeedableRng};
+use std::collections::{BTreeMap, BTreeSet, HashMap};
+use std::panic::{catch_unwind, AssertUnwindSafe};
 
-pub fn run(_em: &mut Em, _rng: &mut Rng) {}
+const STRS: [&str; 5] = ["lab-e", "lab-d", "lab-c", "lab-b", "lab-a"];
+
+trait Lab: Label + Copy + 'static {
+    const TAG: char;
+    const DOM: usize;
+    fn code(&self) -> usize;
+    fn from_code(c: usize) -> Self;
+}
+impl Lab for usize {
+    const TAG: char = 'u';
+    const DOM: usize = 5;
+    fn code(&self) -> usize {
+        *self
+    }
+    fn from_code(c: usize) -> Self {
+        c
+    }
+}
+impl Lab for bool {
+    const TAG: char = 'b';
+    const DOM: usize = 2;
+    fn code(&self) -> usize {
+        *self as usize
+    }
+    fn from_code(c: usize) -> Self {
+        c != 0
+    }
+}
+impl Lab for &'static str {
+    const TAG: char = 's';
+    const DOM: usize = 5;
+    fn code(&self) -> usize {
+        STRS.iter().position(|s| s == self).unwrap()
+    }
+    fn from_code(c: usize) -> Self {
+        STRS[c]
+    }
+}
+fn dom_of(lt: char) -> usize {
+    if lt == 'b' {
+        2
+    } else {
+        5
+    }
+}
+
+/// what the public accessors of a dataset show
+#[derive(Clone, Debug, PartialEq)]
+struct Snap {
+    n: usize,
+    p: usize,
+    t: usize,
+    ix1: bool,
+    recs: Vec<Vec<u64>>,
+    tg: Vec<Vec<usize>>,
+    w: Vec<u64>,
+    fnames: Vec<String>,
+    tnames: Vec<String>,
+    counts: Option<Vec<Vec<(usize, usize)>>>,
+}
+
+trait CountsOf<L> {
+    fn counts_of(&self) -> Option<Vec<HashMap<L, usize>>>;
+}
+impl<L, S: Data<Elem = L>, I: Dimension> CountsOf<L> for ArrayBase<S, I> {
+    fn counts_of(&self) -> Option<Vec<HashMap<L, usize>>> {
+        None
+    }
+}
+impl<L: Label, P: AsTargets<Elem = L>> CountsOf<L> for CountedTargets<L, P> {
+    fn counts_of(&self) -> Option<Vec<HashMap<L, usize>>> {
+        Some(self.label_count())
+    }
+}
+
+fn snap<L: Lab, D: Data<Elem = f64>, T: AsTargets<Elem = L> + CountsOf<L>>(ds: &DatasetBase<ArrayBase<D, Ix2>, T>) -> Snap {
+    let r = ds.records();
+    let tv = ds.as_targets();
+    let ix1 = tv.ndim() == 1;
+    let tg: Vec<Vec<usize>> = if ix1 { tv.iter().map(|x| vec![x.code()]).collect() } else { tv.axis_iter(Axis(0)).map(|row| row.iter().map(|x| x.code()).collect()).collect() };
+    Snap {
+        n: r.nrows(),
+        p: r.ncols(),
+        t: ds.ntargets(),
+        ix1,
+        recs: r.rows().into_iter().map(|row| row.iter().map(|x| *x as u64).collect()).collect(),
+        tg,
+        w: ds.weights().map(|w| w.iter().map(|x| *x as u64).collect()).unwrap_or_default(),
+        fnames: ds.feature_names().to_vec(),
+        tnames: ds.target_names().to_vec(),
+        counts: ds.targets().counts_of().map(|cs| {
+            cs.iter()
+                .map(|m| {
+                    let mut v: Vec<(usize, usize)> = m.iter().map(|(k, c)| (k.code(), *c)).collect();
+                    v.sort();
+                    v
+                })
+                .collect()
+        }),
+    }
+}
+
+fn show_names(v: &[String]) -> String {
+    if v.is_empty() {
+        "-".into()
+    } else {
+        v.join(",")
+    }
+}
+fn show_rows<T: ToString>(r: &[Vec<T>]) -> String {
+    if r.is_empty() {
+        "-".into()
+    } else {
+        list2(r.iter().map(|x| x.iter()), |x| x.to_string())
+    }
+}
+fn show_counts(c: &Option<Vec<Vec<(usize, usize)>>>) -> String {
+    match c {
+        None => "x".into(),
+        Some(cs) if cs.is_empty() => "-".into(),
+        Some(cs) => cs.iter().map(|m| if m.is_empty() { "-".to_string() } else { m.iter().map(|(l, c)| format!("{}*{}", l, c)).collect::<Vec<_>>().join(",") }).collect::<Vec<_>>().join(";"),
+    }
+}
+fn show_snap(s: &Snap) -> String {
+    format!(
+        "{}x{}x{}x{}[R:{}][T:{}][W:{}][F:{}][N:{}][C:{}]",
+        s.n,
+        s.p,
+        s.t,
+        s.ix1 as u8,
+        show_rows(&s.recs),
+        show_rows(&s.tg),
+        if s.w.is_empty() { "-".to_string() } else { list(s.w.iter(), |x| x.to_string()) },
+        show_names(&s.fnames),
+        show_names(&s.tnames),
+        show_counts(&s.counts)
+    )
+}
+
+type P1<L> = Dataset<f64, L, Ix1>;
+type P2<L> = Dataset<f64, L, Ix2>;
+type C1<L> = DatasetBase<Array2<f64>, CountedTargets<L, Array1<L>>>;
+type C2<L> = DatasetBase<Array2<f64>, CountedTargets<L, Array2<L>>>;
+enum St<L: Lab> {
+    P1(P1<L>),
+    P2(P2<L>),
+    C1(C1<L>),
+    C2(C2<L>),
+}
+enum StAny {
+    U(St<usize>),
+    B(St<bool>),
+    S(St<&'static str>),
+}
+
+/// a dataset with exactly the given public content (constructors only)
+fn build<L: Lab>(s: &Snap) -> St<L> {
+    let recs = Array2::from_shape_vec((s.n, s.p), s.recs.iter().flatten().map(|x| *x as f64).collect()).unwrap();
+    let w = Array1::from(s.w.iter().map(|x| *x as f32).collect::<Vec<f32>>());
+    let flat: Vec<L> = s.tg.iter().flatten().map(|c| L::from_code(*c)).collect();
+    if s.ix1 {
+        let tg = Array1::from(flat);
+        if s.counts.is_some() {
+            St::C1(DatasetBase::new(recs, CountedTargets::new(tg)).with_weights(w).with_feature_names(s.fnames.clone()).with_target_names(s.tnames.clone()))
+        } else {
+            St::P1(Dataset::new(recs, tg).with_weights(w).with_feature_names(s.fnames.clone()).with_target_names(s.tnames.clone()))
+        }
+    } else {
+        let tg = Array2::from_shape_vec((s.n, s.t), flat).unwrap();
+        if s.counts.is_some() {
+            St::C2(DatasetBase::new(recs, CountedTargets::new(tg)).with_weights(w).with_feature_names(s.fnames.clone()).with_target_names(s.tnames.clone()))
+        } else {
+            St::P2(Dataset::new(recs, tg).with_weights(w).with_feature_names(s.fnames.clone()).with_target_names(s.tnames.clone()))
+        }
+    }
+}
+fn build_any(lt: char, s: &Snap) -> StAny {
+    match lt {
+        'u' => StAny::U(build(s)),
+        'b' => StAny::B(build(s)),
+        _ => StAny::S(build(s)),
+    }
+}
+
+#[derive(Clone, Debug)]
+enum Op {
+    SplitV { r: f32 },
+    SplitO { r: f32 },
+    Shuffle { v: bool, seed: u64 },
+    Boot { v: bool, ns: usize, nf: usize, seed: u64 },
+    BootS { v: bool, ns: usize, seed: u64 },
+    BootF { v: bool, nf: usize, seed: u64 },
+    WithLabels { v: bool, labs: Vec<usize> },
+    OneVsAll { v: bool },
+    Map { v: bool, lt2: char, tab: Vec<usize> },
+    View,
+    ToOwned { v: bool },
+    IntoSingle,
+    SampleIter { v: bool },
+    FeatureIter { v: bool },
+    TargetIter { v: bool },
+    Chunks { v: bool, size: usize },
+}
+impl Op {
+    fn name(&self) -> &'static str {
+        match self {
+            Op::SplitV { .. } => "splitV",
+            Op::SplitO { .. } => "splitO",
+            Op::Shuffle { .. } => "shuffle",
+            Op::Boot { .. } => "boot",
+            Op::BootS { .. } => "bootS",
+            Op::BootF { .. } => "bootF",
+            Op::WithLabels { .. } => "withLabels",
+            Op::OneVsAll { .. } => "oneVsAll",
+            Op::Map { .. } => "map",
+            Op::View => "view",
+            Op::ToOwned { .. } => "toOwned",
+            Op::IntoSingle => "intoSingle",
+            Op::SampleIter { .. } => "sampleIter",
+            Op::FeatureIter { .. } => "featureIter",
+            Op::TargetIter { .. } => "targetIter",
+            Op::Chunks { .. } => "chunks",
+        }
+    }
+    fn through_view(&self) -> bool {
+        match self {
+            Op::SplitV { .. } | Op::View => true,
+            Op::SplitO { .. } | Op::IntoSingle => false,
+            Op::Shuffle { v, .. } | Op::Boot { v, .. } | Op::BootS { v, .. } | Op::BootF { v, .. } | Op::WithLabels { v, .. } | Op::OneVsAll { v } | Op::Map { v, .. } | Op::ToOwned { v } | Op::SampleIter { v } | Op::FeatureIter { v } | Op::TargetIter { v } | Op::Chunks { v, .. } => *v,
+        }
+    }
+}
+
+/// what one step returned
+#[derive(Default)]
+struct Res {
+    outs: Vec<Snap>,
+    lt: char,
+    /// one_vs_all: the label reported with each output
+    labels: Vec<usize>,
+    /// sample_iter: the pairs it yielded
+    pairs: Option<Vec<(Vec<u64>, Vec<usize>)>>,
+}
+
+/// `$d` is bound to the owned dataset (by reference) or to a view of it
+macro_rules! each {
+    ($st:expr, $v:expr, |$d:ident| $body:expr) => {
+        match $st {
+            St::P1(x) => {
+                if $v {
+                    let $d = x.view();
+                    let out_ = $body;
+                    out_
+                } else {
+                    let $d = x;
+                    let out_ = $body;
+                    out_
+                }
+            }
+            St::P2(x) => {
+                if $v {
+                    let $d = x.view();
+                    let out_ = $body;
+                    out_
+                } else {
+                    let $d = x;
+                    let out_ = $body;
+                    out_
+                }
+            }
+            St::C1(x) => {
+                if $v {
+                    let $d = x.view();
+                    let out_ = $body;
+                    out_
+                } else {
+                    let $d = x;
+                    let out_ = $body;
+                    out_
+                }
+            }
+            St::C2(x) => {
+                if $v {
+                    let $d = x.view();
+                    let out_ = $body;
+                    out_
+                } else {
+                    let $d = x;
+                    let out_ = $body;
+                    out_
+                }
+            }
+        }
+    };
+}
+/// `$d` is bound to a view of the dataset
+macro_rules! each_view {
+    ($st:expr, |$d:ident| $body:expr) => {
+        match $st {
+            St::P1(x) => {
+                let $d = x.view();
+                let out_ = $body;
+                out_
+            }
+            St::P2(x) => {
+                let $d = x.view();
+                let out_ = $body;
+                out_
+            }
+            St::C1(x) => {
+                let $d = x.view();
+                let out_ = $body;
+                out_
+            }
+            St::C2(x) => {
+                let $d = x.view();
+                let out_ = $body;
+                out_
+            }
+        }
+    };
+}
+/// `$d` is bound to the owned dataset (by reference)
+macro_rules! each_own {
+    ($st:expr, |$d:ident| $body:expr) => {
+        match $st {
+            St::P1($d) => {
+                let out_ = $body;
+                out_
+            }
+            St::P2($d) => {
+                let out_ = $body;
+                out_
+            }
+            St::C1($d) => {
+                let out_ = $body;
+                out_
+            }
+            St::C2($d) => {
+                let out_ = $body;
+                out_
+            }
+        }
+    };
+}
+/// single-target datasets only
+macro_rules! each1 {
+    ($st:expr, $v:expr, |$d:ident| $body:expr) => {
+        match $st {
+            St::P1(x) => {
+                if $v {
+                    let $d = x.view();
+                    let out_ = $body;
+                    out_
+                } else {
+                    let $d = x;
+                    let out_ = $body;
+                    out_
+                }
+            }
+            St::C1(x) => {
+                if $v {
+                    let $d = x.view();
+                    let out_ = $body;
+                    out_
+                } else {
+                    let $d = x;
+                    let out_ = $body;
+                    out_
+                }
+            }
+            _ => unreachable!("one_vs_all is generated for Ix1 targets only"),
+        }
+    };
+}
+
+fn map_out<L: Lab, L2: Lab>(st: &St<L>, v: bool, tab: &[usize]) -> Vec<Snap> {
+    let f = |x: &L| L2::from_code(tab[x.code()]);
+    vec![each!(st, v, |d| snap(&d.clone().map_targets(f)))]
+}
+
+/// runs one operation of the real code on the current dataset (may panic)
+fn exec<L: Lab>(st: &St<L>, op: &Op) -> Res {
+    let mut res = Res { lt: L::TAG, ..Default::default() };
+    match op {
+        Op::SplitV { r } => {
+            res.outs = each_view!(st, |d| {
+                let (a, b) = d.split_with_ratio(*r);
+                vec![snap(&a), snap(&b)]
+            });
+        }
+        Op::SplitO { r } => {
+            res.outs = match st {
+                St::P1(x) => {
+                    let (a, b) = x.clone().split_with_ratio(*r);
+                    vec![snap(&a), snap(&b)]
+                }
+                St::P2(x) => {
+                    let (a, b) = x.clone().split_with_ratio(*r);
+                    vec![snap(&a), snap(&b)]
+                }
+                _ => unreachable!("owned split is generated for plain targets only"),
+            };
+        }
+        Op::Shuffle { v, seed } => {
+            let mut rng = SmallRng::seed_from_u64(*seed);
+            res.outs = vec![each!(st, *v, |d| snap(&d.shuffle(&mut rng)))];
+        }
+        Op::Boot { v, ns, nf, seed } => {
+            let mut rng = SmallRng::seed_from_u64(*seed);
+            res.outs = vec![each!(st, *v, |d| snap(&d.bootstrap((*ns, *nf), &mut rng).next().unwrap()))];
+        }
+        Op::BootS { v, ns, seed } => {
+            let mut rng = SmallRng::seed_from_u64(*seed);
+            res.outs = vec![each!(st, *v, |d| snap(&d.bootstrap_samples(*ns, &mut rng).next().unwrap()))];
+        }
+        Op::BootF { v, nf, seed } => {
+            let mut rng = SmallRng::seed_from_u64(*seed);
+            res.outs = vec![each!(st, *v, |d| snap(&d.bootstrap_features(*nf, &mut rng).next().unwrap()))];
+        }
+        Op::WithLabels { v, labs } => {
+            let labs: Vec<L> = labs.iter().map(|c| L::from_code(*c)).collect();
+            res.outs = vec![each!(st, *v, |d| snap(&d.with_labels(&labs)))];
+        }
+        Op::OneVsAll { v } => {
+            let mut pairs: Vec<(usize, Snap)> = each1!(st, *v, |d| d.one_vs_all().unwrap().iter().map(|(l, ds)| (l.code(), snap::<bool, _, _>(ds))).collect());
+            pairs.sort_by_key(|x| x.0);
+            res.labels = pairs.iter().map(|x| x.0).collect();
+            res.outs = pairs.into_iter().map(|x| x.1).collect();
+            res.lt = 'b';
+        }
+        Op::Map { v, lt2, tab } => {
+            res.lt = *lt2;
+            res.outs = match lt2 {
+                'u' => map_out::<L, usize>(st, *v, tab),
+                'b' => map_out::<L, bool>(st, *v, tab),
+                _ => map_out::<L, &'static str>(st, *v, tab),
+            };
+        }
+        Op::View => {
+            res.outs = vec![each_view!(st, |d| snap(&d))];
+        }
+        Op::ToOwned { v } => {
+            res.outs = vec![each!(st, *v, |d| snap(&d.to_owned()))];
+        }
+        Op::IntoSingle => {
+            res.outs = match st {
+                St::P2(x) => vec![snap(&x.clone().into_single_target())],
+                _ => unreachable!("into_single_target is generated for owned Ix2 array targets only"),
+            };
+        }
+        Op::SampleIter { v } => {
+            res.pairs = Some(each!(st, *v, |d| d.sample_iter().map(|(r, t)| (r.iter().map(|x| *x as u64).collect(), t.iter().map(|x| x.code()).collect())).collect()));
+            res.outs = vec![each_own!(st, |d| snap(d))];
+        }
+        Op::FeatureIter { v } => {
+            res.outs = each!(st, *v, |d| d.feature_iter().map(|x| snap(&x)).collect());
+        }
+        Op::TargetIter { v } => {
+            res.outs = each!(st, *v, |d| d.target_iter().map(|x| snap(&x)).collect());
+        }
+        Op::Chunks { v, size } => {
+            res.outs = each!(st, *v, |d| d.sample_chunks(*size).map(|x| snap(&x)).collect());
+        }
+    }
+    res
+}
+
+fn exec_any(st: &StAny, op: &Op) -> Option<Res> {
+    catch_unwind(AssertUnwindSafe(|| match st {
+        StAny::U(s) => exec(s, op),
+        StAny::B(s) => exec(s, op),
+        StAny::S(s) => exec(s, op),
+    }))
+    .ok()
+}
+
+// ------------------------------------------------------------------ reading RNG choices back
+
+/// sample indices chosen by the implementation, from the record tags: the smallest (for a
+/// permutation: smallest unused) input row with the same id
+fn read_rows(inp: &Snap, out: &Snap, distinct: bool) -> Option<Vec<usize>> {
+    let mut used = vec![false; inp.n];
+    let mut idx = vec![];
+    for row in &out.recs {
+        let id = row.first()? / 8;
+        let k = (0..inp.n).find(|i| !(distinct && used[*i]) && inp.recs[*i].first().map(|c| c / 8) == Some(id))?;
+        used[k] = true;
+        idx.push(k);
+    }
+    Some(idx)
+}
+/// feature indices chosen by the implementation, from the column tags of the first row
+fn read_cols(inp: &Snap, out: &Snap) -> Option<Vec<usize>> {
+    if out.n == 0 || inp.n == 0 {
+        return Some(vec![0; out.p]);
+    }
+    let in_tags: Vec<u64> = inp.recs[0].iter().map(|c| c % 8).collect();
+    out.recs[0].iter().map(|c| in_tags.iter().position(|t| *t == c % 8)).collect()
+}
+
+// ------------------------------------------------------------------ oracle
+
+fn sel<T: Clone>(xs: &[T], idx: &[usize]) -> Option<Vec<T>> {
+    idx.iter().map(|i| xs.get(*i).cloned()).collect()
+}
+fn recount(tg: &[Vec<usize>], t: usize) -> Vec<Vec<(usize, usize)>> {
+    (0..t)
+        .map(|c| {
+            let mut m = BTreeMap::new();
+            for row in tg {
+                *m.entry(row[c]).or_insert(0usize) += 1;
+            }
+            m.into_iter().collect()
+        })
+        .collect()
+}
+
+/// alignment of one returned dataset with the step's input: row k of the output is input row
+/// idx[k] (record columns `cols`, target columns `tcols`, labels through `f`), weights and names —
+/// whenever carried — are those of the same rows / columns; cached label counts are a recount.
+fn aligned(ctx: &mut Ctx, class: &str, what: &str, inp: &Snap, out: &Snap, idx: &[usize], cols: &[usize], tcols: &[usize], f: &dyn Fn(usize) -> usize) -> bool {
+    let mut ok = true;
+    let want_r: Option<Vec<Vec<u64>>> = sel(&inp.recs, idx).and_then(|rows| rows.iter().map(|r| sel(r, cols)).collect());
+    let want_t: Option<Vec<Vec<usize>>> = sel(&inp.tg, idx).and_then(|rows| rows.iter().map(|r| sel(r, tcols).map(|x| x.iter().map(|c| f(*c)).collect())).collect());
+    if want_r.as_ref() != Some(&out.recs) || out.n != idx.len() || out.p != cols.len() {
+        ctx.fail("records_selected", class, format!("{}: records {:?}, want rows {:?} cols {:?} of {:?}", what, out.recs, idx, cols, inp.recs));
+        ok = false;
+    }
+    if want_t.as_ref() != Some(&out.tg) || out.t != tcols.len() {
+        ctx.fail("target_of_same_sample", class, format!("{}: targets {:?}, want rows {:?} cols {:?} of {:?}", what, out.tg, idx, tcols, inp.tg));
+        ok = false;
+    }
+    if !out.w.is_empty() && sel(&inp.w, idx).as_ref() != Some(&out.w) {
+        ctx.fail("weight_of_same_sample", class, format!("{}: weights {:?}, rows {:?} of {:?}", what, out.w, idx, inp.w));
+        ok = false;
+    }
+    if !out.fnames.is_empty() && sel(&inp.fnames, cols).as_ref() != Some(&out.fnames) {
+        ctx.fail("feature_name_of_same_column", class, format!("{}: feature names {:?}, columns {:?} of {:?}", what, out.fnames, cols, inp.fnames));
+        ok = false;
+    }
+    if !out.tnames.is_empty() && sel(&inp.tnames, tcols).as_ref() != Some(&out.tnames) {
+        ctx.fail("target_name_of_same_column", class, format!("{}: target names {:?}, columns {:?} of {:?}", what, out.tnames, tcols, inp.tnames));
+        ok = false;
+    }
+    if let Some(c) = &out.counts {
+        if out.tg.iter().all(|r| r.len() == out.t) && *c != recount(&out.tg, out.t) {
+            ctx.fail("label_counts", class, format!("{}: cached label counts {:?}, targets {:?}", what, c, out.tg));
+            ok = false;
+        }
+    }
+    ok
+}
+
+/// bookkeeping of the original tags along a history
+#[derive(Clone)]
+struct Truth {
+    /// expected current target row of original sample `id`
+    tg: Vec<Vec<usize>>,
+    /// original column of each current target column
+    tcols: Vec<usize>,
+}
+
+/// a row's record cells, target(s), weight and the column names all carry the same original tags
+fn tags_ok(ctx: &mut Ctx, class: &str, what: &str, s: &Snap, truth: &Truth) {
+    for (k, row) in s.recs.iter().enumerate() {
+        if row.is_empty() {
+            continue;
+        }
+        let id = (row[0] / 8) as usize;
+        if !row.iter().all(|c| (*c / 8) as usize == id) || id >= truth.tg.len() {
+            ctx.fail("record_cells_one_sample", class, format!("{}: row {} mixes samples: {:?}", what, k, row));
+            continue;
+        }
+        if s.tg.get(k) != Some(&truth.tg[id]) {
+            ctx.fail("target_of_same_sample", class, format!("{}: row {} is sample {} but carries targets {:?}, that sample's are {:?}", what, k, id, s.tg.get(k), truth.tg[id]));
+        }
+        if !s.w.is_empty() && s.w.get(k) != Some(&(1000 + id as u64)) {
+            ctx.fail("weight_of_same_sample", class, format!("{}: row {} is sample {} but carries weight {:?}", what, k, id, s.w.get(k)));
+        }
+    }
+    if let Some(row) = s.recs.first() {
+        if !s.fnames.is_empty() && s.fnames != row.iter().map(|c| format!("f{}", c % 8)).collect::<Vec<_>>() {
+            ctx.fail("feature_name_of_same_column", class, format!("{}: feature names {:?} over columns {:?}", what, s.fnames, row));
+        }
+    }
+    if !s.tnames.is_empty() && s.tnames != truth.tcols.iter().map(|c| format!("t{}", c)).collect::<Vec<_>>() {
+        ctx.fail("target_name_of_same_column", class, format!("{}: target names {:?} over original columns {:?}", what, s.tnames, truth.tcols));
+    }
+}
+
+fn ceil_ratio(n: usize, r: f32) -> usize {
+    // the product of n and an f32 is exact in f64 (24 + 24 bits); rounding it to f32 is the single
+    // precision product; `as usize` saturates
+    let prod = ((n as f64) * (r as f64)) as f32;
+    prod.ceil() as usize
+}
+
+fn class_of(op: &Op, inp: &Snap) -> String {
+    format!("{}:ix1={}:cnt={}:v={}", op.name(), inp.ix1 as u8, inp.counts.is_some() as u8, op.through_view() as u8)
+}
+
+/// does the property promise a result for this step?
+fn promised(op: &Op, inp: &Snap) -> bool {
+    match op {
+        Op::SplitV { r } | Op::SplitO { r } => *r >= 0.0 && *r <= 1.0,
+        Op::Boot { ns, nf, .. } => (inp.n > 0 || *ns == 0) && (inp.p > 0 || *nf == 0),
+        Op::BootS { ns, .. } => inp.n > 0 || *ns == 0,
+        Op::BootF { nf, .. } => inp.p > 0 || *nf == 0,
+        Op::IntoSingle => inp.t == 1,
+        Op::Chunks { size, .. } => *size > 0,
+        _ => true,
+    }
+}
+
+/// the selection law of the step, checked on what the implementation returned
+fn oracle_step(ctx: &mut Ctx, op: &Op, inp: &Snap, res: &Res, idx: &Option<Vec<usize>>, fidx: &Option<Vec<usize>>) {
+    let class = class_of(op, inp);
+    let all: Vec<usize> = (0..inp.n).collect();
+    let cols: Vec<usize> = (0..inp.p).collect();
+    let tcols: Vec<usize> = (0..inp.t).collect();
+    let id = |c: usize| c;
+    for o in &res.outs {
+        let wf = (o.w.is_empty() || o.w.len() == o.n) && (o.fnames.is_empty() || o.fnames.len() == o.p) && (o.tnames.is_empty() || o.tnames.len() == o.t) && o.tg.len() == o.n && o.tg.iter().all(|r| r.len() == o.t) && o.recs.iter().all(|r| r.len() == o.p);
+        ctx.require(wf, "containers_parallel", &class, || format!("{}: n={} p={} t={} but {} target rows, {} weights, {} feature names, {} target names", op.name(), o.n, o.p, o.t, o.tg.len(), o.w.len(), o.fnames.len(), o.tnames.len()));
+    }
+    match op {
+        Op::SplitV { r } | Op::SplitO { r } => {
+            let n1 = ceil_ratio(inp.n, *r);
+            if res.outs.len() != 2 || n1 > inp.n {
+                ctx.fail("split_first_ceil", &class, format!("split of n={} at ratio {:?} returned {} parts", inp.n, r, res.outs.len()));
+                return;
+            }
+            ctx.require(res.outs[0].n == n1 && res.outs[1].n == inp.n - n1, "split_first_ceil", &class, || format!("n={} ratio={:?}: parts of {} and {} samples, want ceil = {}", inp.n, r, res.outs[0].n, res.outs[1].n, n1));
+            aligned(ctx, &class, "first part", inp, &res.outs[0], &all[..n1.min(inp.n)], &cols, &tcols, &id);
+            aligned(ctx, &class, "second part", inp, &res.outs[1], &all[n1.min(inp.n)..], &cols, &tcols, &id);
+        }
+        Op::Shuffle { .. } => {
+            let o = &res.outs[0];
+            match idx {
+                Some(ix) if ix.len() == inp.n => {
+                    let mut sorted = ix.clone();
+                    sorted.sort();
+                    ctx.require(sorted == all, "shuffle_perm", &class, || format!("rows {:?} are not a permutation of 0..{}", ix, inp.n));
+                    aligned(ctx, &class, "shuffled", inp, o, ix, &cols, &tcols, &id);
+                }
+                _ => ctx.fail("shuffle_perm", &class, format!("shuffled records {:?} are not a permutation of {:?}", o.recs, inp.recs)),
+            }
+        }
+        Op::Boot { ns, nf, .. } => boot_oracle(ctx, &class, inp, &res.outs[0], idx, fidx, *ns, *nf),
+        Op::BootS { ns, .. } => boot_oracle(ctx, &class, inp, &res.outs[0], idx, &Some(cols.clone()), *ns, inp.p),
+        Op::BootF { nf, .. } => boot_oracle(ctx, &class, inp, &res.outs[0], &Some(all.clone()), fidx, inp.n, *nf),
+        Op::WithLabels { labs, .. } => {
+            let keep: Vec<usize> = (0..inp.n).filter(|i| inp.tg[*i].iter().any(|c| labs.contains(c))).collect();
+            let o = &res.outs[0];
+            if aligned(ctx, &class, "filtered", inp, o, &keep, &cols, &tcols, &id) {
+                let kept_t: Vec<Vec<usize>> = keep.iter().map(|i| inp.tg[*i].clone()).collect();
+                ctx.require(o.counts == Some(recount(&kept_t, inp.t)), "label_counts", &class, || format!("label counts {:?} for kept targets {:?}", o.counts, kept_t));
+            } else {
+                ctx.fail("with_labels_filter", &class, format!("labels {:?}: kept rows are not exactly {:?}", labs, keep));
+            }
+        }
+        Op::OneVsAll { .. } => {
+            let distinct: Vec<usize> = inp.tg.iter().map(|r| r[0]).collect::<BTreeSet<_>>().into_iter().collect();
+            ctx.require(res.labels == distinct, "one_vs_all_labels", &class, || format!("one view per distinct label: got labels {:?}, distinct labels {:?}", res.labels, distinct));
+            for (l, o) in res.labels.iter().zip(res.outs.iter()) {
+                let l = *l;
+                aligned(ctx, &class, &format!("label {}", l), inp, o, &all, &cols, &tcols, &move |c| (c == l) as usize);
+                ctx.require(o.counts.is_some(), "label_counts", &class, || "one_vs_all view without label counts".to_string());
+            }
+        }
+        Op::Map { tab, .. } => {
+            aligned(ctx, &class, "mapped", inp, &res.outs[0], &all, &cols, &tcols, &|c| tab[c]);
+        }
+        Op::View | Op::ToOwned { .. } => {
+            aligned(ctx, &class, op.name(), inp, &res.outs[0], &all, &cols, &tcols, &id);
+        }
+        // documented to panic unless there is exactly one target column; nothing is promised otherwise
+        Op::IntoSingle if inp.t != 1 => {}
+        Op::IntoSingle => {
+            let o = &res.outs[0];
+            aligned(ctx, &class, "single target", inp, o, &all, &cols, &tcols, &id);
+            ctx.require(o.ix1, "single_target_shape", &class, || "targets still two-dimensional".to_string());
+        }
+        Op::SampleIter { .. } => {
+            let want: Vec<(Vec<u64>, Vec<usize>)> = inp.recs.iter().cloned().zip(inp.tg.iter().cloned()).collect();
+            ctx.require(res.pairs.as_ref() == Some(&want), "sample_iter_pairs", &class, || format!("yielded {:?}, dataset rows {:?}", res.pairs, want));
+        }
+        Op::FeatureIter { .. } => {
+            ctx.require(res.outs.len() == inp.p, "one_view_per_column", &class, || format!("{} views for {} features", res.outs.len(), inp.p));
+            for (j, o) in res.outs.iter().enumerate() {
+                aligned(ctx, &class, &format!("feature {}", j), inp, o, &all, &[j], &tcols, &id);
+            }
+        }
+        Op::TargetIter { .. } => {
+            ctx.require(res.outs.len() == inp.t, "one_view_per_column", &class, || format!("{} views for {} targets", res.outs.len(), inp.t));
+            for (c, o) in res.outs.iter().enumerate() {
+                aligned(ctx, &class, &format!("target {}", c), inp, o, &all, &cols, &[c], &id);
+            }
+        }
+        Op::Chunks { size, .. } => {
+            for (i, o) in res.outs.iter().enumerate() {
+                let blk: Vec<usize> = (i * size..(i + 1) * size).collect();
+                aligned(ctx, &class, &format!("chunk {}", i), inp, o, &blk, &cols, &tcols, &id);
+            }
+        }
+    }
+}
+
+fn boot_oracle(ctx: &mut Ctx, class: &str, inp: &Snap, o: &Snap, idx: &Option<Vec<usize>>, fidx: &Option<Vec<usize>>, ns: usize, nf: usize) {
+    ctx.require(o.n == ns && o.p == nf, "bootstrap_size", class, || format!("{}x{} drawn, ({}, {}) requested", o.n, o.p, ns, nf));
+    match (idx, fidx) {
+        (Some(ix), Some(fx)) if ix.len() == o.n && fx.len() == o.p => {
+            let tcols: Vec<usize> = (0..inp.t).collect();
+            aligned(ctx, class, "bootstrap", inp, o, ix, fx, &tcols, &|c| c);
+        }
+        _ => ctx.fail("bootstrap_mem", class, format!("drawn records {:?} are not rows/columns of {:?}", o.recs, inp.recs)),
+    }
+}
+
+// ------------------------------------------------------------------ histories
+
+#[derive(Clone, Debug)]
+struct StepRec {
+    op: Op,
+    pick: usize,
+}
+
+fn op_token(op: &Op, pick: usize, idx: &Option<Vec<usize>>, fidx: &Option<Vec<usize>>) -> String {
+    let li = |v: &Option<Vec<usize>>| list(v.clone().unwrap_or_default().iter(), |x| x.to_string());
+    let body = match op {
+        Op::SplitV { r } | Op::SplitO { r } => format!("r={}", hex32(*r)),
+        Op::Shuffle { v, seed } => format!("v={}:seed={}:idx={}", *v as u8, seed, li(idx)),
+        Op::Boot { v, ns, nf, seed } => format!("v={}:seed={}:ns={}:nf={}:idx={}:fidx={}", *v as u8, seed, ns, nf, li(idx), li(fidx)),
+        Op::BootS { v, ns, seed } => format!("v={}:seed={}:ns={}:idx={}", *v as u8, seed, ns, li(idx)),
+        Op::BootF { v, nf, seed } => format!("v={}:seed={}:nf={}:fidx={}", *v as u8, seed, nf, li(fidx)),
+        Op::WithLabels { v, labs } => format!("v={}:labs={}", *v as u8, list(labs.iter(), |x| x.to_string())),
+        Op::OneVsAll { v } | Op::ToOwned { v } | Op::SampleIter { v } | Op::FeatureIter { v } | Op::TargetIter { v } => format!("v={}", *v as u8),
+        Op::Map { v, lt2, tab } => format!("v={}:lt2={}:tab={}", *v as u8, lt2, list(tab.iter(), |x| x.to_string())),
+        Op::View | Op::IntoSingle => "v=0".to_string(),
+        Op::Chunks { v, size } => format!("v={}:size={}", *v as u8, size),
+    };
+    format!("{}:{}:pick={}", op.name(), body, pick)
+}
+
+/// RNG choices of a step read back from its result
+fn read_back(op: &Op, inp: &Snap, res: &Res) -> (Option<Vec<usize>>, Option<Vec<usize>>) {
+    match op {
+        Op::Shuffle { .. } => (read_rows(inp, &res.outs[0], true), None),
+        Op::BootS { .. } => (read_rows(inp, &res.outs[0], false), None),
+        Op::BootF { .. } => (None, read_cols(inp, &res.outs[0])),
+        Op::Boot { .. } => (read_rows(inp, &res.outs[0], false), read_cols(inp, &res.outs[0])),
+        _ => (None, None),
+    }
+}
+
+fn update_truth(truth: &mut Truth, op: &Op, res: &Res, pick: usize) {
+    match op {
+        Op::Map { tab, .. } => truth.tg.iter_mut().for_each(|r| r.iter_mut().for_each(|c| *c = tab[*c])),
+        Op::OneVsAll { .. } => {
+            let l = res.labels[pick];
+            truth.tg.iter_mut().for_each(|r| r.iter_mut().for_each(|c| *c = (*c == l) as usize));
+        }
+        Op::TargetIter { .. } => {
+            // (an empty 0 x 0 target array converted by into_single_target has one column of no origin)
+            truth.tg.iter_mut().for_each(|r| *r = r.get(pick).copied().into_iter().collect());
+            truth.tcols = truth.tcols.get(pick).copied().into_iter().collect();
+        }
+        _ => {}
+    }
+}
+
+struct Init {
+    lt: char,
+    snap: Snap,
+}
+
+fn init_snap(n: usize, p: usize, t: usize, ix1: bool, w: bool, fnm: bool, tnm: bool, cnt: bool, y: &[Vec<usize>]) -> Snap {
+    Snap {
+        n,
+        p,
+        t,
+        ix1,
+        recs: (0..n).map(|i| (0..p).map(|j| (i * 8 + j) as u64).collect()).collect(),
+        tg: y.to_vec(),
+        w: if w { (0..n).map(|i| 1000 + i as u64).collect() } else { vec![] },
+        fnames: if fnm { (0..p).map(|j| format!("f{}", j)).collect() } else { vec![] },
+        tnames: if tnm { (0..t).map(|c| format!("t{}", c)).collect() } else { vec![] },
+        counts: if cnt { Some(recount(y, t)) } else { None },
+    }
+}
+
+/// ops the Rust type system admits on the current dataset
+fn gen_op(rng: &mut Rng, cur: &Snap, lt: char, em: &mut Em) -> Op {
+    let v = rng.coin();
+    let dom = dom_of(lt);
+    loop {
+        let k = rng.below(17);
+        let op = match k {
+            0 | 1 => Op::SplitV { r: gen_ratio(rng, cur.n) },
+            2 if cur.counts.is_none() => Op::SplitO { r: gen_ratio(rng, cur.n) },
+            3 if cur.p > 0 => Op::Shuffle { v, seed: rng.next() },
+            4 if cur.p > 0 => {
+                let ns = if cur.n == 0 && rng.chance(3, 4) { 0 } else { rng.below(cur.n + 3) };
+                Op::Boot { v, ns, nf: 1 + rng.below(cur.p + 1), seed: rng.next() }
+            }
+            5 if cur.p > 0 => {
+                let ns = if cur.n == 0 && rng.chance(3, 4) { 0 } else { rng.below(cur.n + 3) };
+                Op::BootS { v, ns, seed: rng.next() }
+            }
+            6 => {
+                let nf = if cur.p == 0 && rng.chance(3, 4) { 0 } else { rng.below(cur.p + 2) };
+                Op::BootF { v, nf, seed: rng.next() }
+            }
+            7 | 8 => {
+                let m = rng.below(4);
+                let labs = (0..m).map(|_| rng.below(dom)).collect();
+                Op::WithLabels { v, labs }
+            }
+            9 if cur.ix1 => Op::OneVsAll { v },
+            10 | 11 => {
+                let lt2 = *rng.pick(&['u', 'b', 's']);
+                let d2 = dom_of(lt2);
+                let tab = (0..dom).map(|_| rng.below(d2)).collect();
+                Op::Map { v, lt2, tab }
+            }
+            12 => {
+                if rng.coin() {
+                    Op::View
+                } else {
+                    Op::ToOwned { v }
+                }
+            }
+            13 if !cur.ix1 && cur.counts.is_none() && (cur.t == 1 || rng.chance(1, 6)) => Op::IntoSingle,
+            14 => {
+                if rng.chance(1, 3) {
+                    Op::SampleIter { v }
+                } else {
+                    Op::FeatureIter { v }
+                }
+            }
+            15 => Op::TargetIter { v },
+            16 => Op::Chunks { v, size: if rng.chance(1, 12) { 0 } else { 1 + rng.below(cur.n.max(1) + 1) } },
+            _ => continue,
+        };
+        em.count(&format!("step:{}", op.name()));
+        return op;
+    }
+}
+
+fn gen_ratio(rng: &mut Rng, n: usize) -> f32 {
+    match rng.below(10) {
+        0 => 0.0,
+        1 => 1.0,
+        2 => rng.below(17) as f32 / 16.0,
+        3 => rng.below(11) as f32 / 10.0,
+        4 => rng.below(8) as f32 / 7.0,
+        // a ratio that hits a sample boundary exactly (k/n) or just misses it
+        5 | 6 if n > 0 => {
+            let x = rng.below(n + 1) as f32 / n as f32;
+            match rng.below(3) {
+                0 => f32::from_bits(x.to_bits().saturating_sub(1)),
+                1 => f32::from_bits(x.to_bits() + 1),
+                _ => x,
+            }
+        }
+        7 if rng.chance(1, 4) => *rng.pick(&[1.5f32, -0.25, f32::NAN, 1.0000001]),
+        _ => rng.unit() as f32,
+    }
+}
+
+fn history(em: &mut Em, rng: &mut Rng, nmax: usize, maxlen: usize) {
+    let lt = *rng.pick(&['u', 'b', 's']);
+    let dom = dom_of(lt);
+    let n = if rng.chance(1, 12) { rng.below(2) } else { 2 + rng.below(nmax - 1) };
+    let p = if rng.chance(1, 15) { 0 } else { 1 + rng.below(4) };
+    let ix1 = rng.coin();
+    let t = if ix1 {
+        1
+    } else if rng.chance(1, 15) {
+        0
+    } else {
+        1 + rng.below(3)
+    };
+    let (w, fnm, tnm, cnt) = (rng.chance(2, 3), rng.chance(2, 3), rng.chance(2, 3), rng.chance(1, 3));
+    // skewed labels so that some are absent and some frequent
+    let hi = if rng.chance(1, 4) { 1 + rng.below(dom) } else { dom };
+    let y: Vec<Vec<usize>> = (0..n).map(|_| (0..t).map(|_| rng.below(hi)).collect()).collect();
+    let init = Init { lt, snap: init_snap(n, p, t, ix1, w, fnm, tnm, cnt, &y) };
+    em.count(&format!("labels:{}", lt));
+    em.count(if ix1 { "targets:ix1" } else { "targets:ix2" });
+    em.count(if cnt { "targets:counted" } else { "targets:plain" });
+    if w {
+        em.count("init:weights");
+    }
+    if fnm {
+        em.count("init:feature_names");
+    }
+    if tnm {
+        em.count("init:target_names");
+    }
+
+    // generation pass: run the real code to learn what each step returns (shapes decide which
+    // operations can follow, RNG-driven steps reveal their indices)
+    let len = 1 + rng.below(maxlen);
+    let mut steps: Vec<StepRec> = vec![];
+    let mut toks: Vec<String> = vec![];
+    let (mut cur, mut cur_lt) = (init.snap.clone(), lt);
+    for _ in 0..len {
+        let op = gen_op(rng, &cur, cur_lt, em);
+        let st = build_any(cur_lt, &cur);
+        match exec_any(&st, &op) {
+            None => {
+                em.count(&format!("step_panic:{}", op.name()));
+                toks.push(op_token(&op, 0, &None, &None));
+                steps.push(StepRec { op, pick: 0 });
+                break;
+            }
+            Some(res) => {
+                let (idx, fidx) = read_back(&op, &cur, &res);
+                let pick = if res.outs.is_empty() { 0 } else { rng.below(res.outs.len()) };
+                toks.push(op_token(&op, pick, &idx, &fidx));
+                steps.push(StepRec { op, pick });
+                if res.outs.is_empty() {
+                    break;
+                }
+                cur = res.outs[pick].clone();
+                cur_lt = res.lt;
+                // a dataset whose containers are no longer parallel cannot be rebuilt
+                let wf = (cur.w.is_empty() || cur.w.len() == cur.n) && (cur.fnames.is_empty() || cur.fnames.len() == cur.p) && (cur.tnames.is_empty() || cur.tnames.len() == cur.t) && cur.tg.len() == cur.n;
+                if !wf {
+                    break;
+                }
+            }
+        }
+    }
+    em.count(&format!("history_len:{}", steps.len()));
+    let s0 = &init.snap;
+    let req = format!(
+        "seq n={} p={} t={} ix1={} lt={} w={} fn={} tn={} cnt={} y={} ops={}",
+        n,
+        p,
+        t,
+        ix1 as u8,
+        lt,
+        w as u8,
+        fnm as u8,
+        tnm as u8,
+        cnt as u8,
+        list2(s0.tg.iter().map(|r| r.iter()), |x| x.to_string()),
+        toks.join("/")
+    );
+    // the case proper: replay the recorded history on the real code, with the oracle
+    em.case(req, |ctx| {
+        let mut out = vec![format!("init:{}", show_snap(&init.snap))];
+        let (mut cur, mut cur_lt) = (init.snap.clone(), init.lt);
+        let mut truth = Truth { tg: init.snap.tg.clone(), tcols: (0..t).collect() };
+        for s in &steps {
+            let st = build_any(cur_lt, &cur);
+            let class = class_of(&s.op, &cur);
+            match exec_any(&st, &s.op) {
+                None => {
+                    if promised(&s.op, &cur) {
+                        ctx.fail("no_panic", &class, format!("{} panicked on {}", s.op.name(), show_snap(&cur)));
+                    }
+                    out.push(format!("{}:panic", s.op.name()));
+                    break;
+                }
+                Some(res) => {
+                    let (idx, fidx) = read_back(&s.op, &cur, &res);
+                    oracle_step(ctx, &s.op, &cur, &res, &idx, &fidx);
+                    let txt = match (&s.op, &res.pairs) {
+                        (Op::SampleIter { .. }, Some(prs)) => {
+                            if prs.is_empty() {
+                                "-".to_string()
+                            } else {
+                                prs.iter().map(|(r, g)| format!("{}>{}", list(r.iter(), |x| x.to_string()), list(g.iter(), |x| x.to_string()))).collect::<Vec<_>>().join(";")
+                            }
+                        }
+                        (Op::OneVsAll { .. }, _) => res.labels.iter().zip(res.outs.iter()).map(|(l, o)| format!("{}>{}", l, show_snap(o))).collect::<Vec<_>>().join("+"),
+                        _ => res.outs.iter().map(show_snap).collect::<Vec<_>>().join("+"),
+                    };
+                    out.push(format!("{}:{}", s.op.name(), txt));
+                    if res.outs.is_empty() {
+                        break;
+                    }
+                    update_truth(&mut truth, &s.op, &res, s.pick);
+                    cur = res.outs[s.pick].clone();
+                    cur_lt = res.lt;
+                    // cumulative check against the original tags: reported at the first step that breaks
+                    // it, not again under the class of every later step
+                    if ctx.fails.is_empty() {
+                        tags_ok(ctx, &class, s.op.name(), &cur, &truth);
+                    }
+                    let wf = (cur.w.is_empty() || cur.w.len() == cur.n) && (cur.fnames.is_empty() || cur.fnames.len() == cur.p) && (cur.tnames.is_empty() || cur.tnames.len() == cur.t) && cur.tg.len() == cur.n;
+                    if !wf {
+                        break;
+                    }
+                }
+            }
+        }
+        format!("ok {}", out.join(" "))
+    });
+}
+
+// ------------------------------------------------------------------ the ceil grid
+
+fn ceil_case(em: &mut Em, base_r: &Array2<f64>, base_t: &Array1<usize>, n: usize, r: f32) {
+    em.case(format!("ceil n={} r={}", n, hex32(r)), |ctx| {
+        let want = ceil_ratio(n, r);
+        let ds = DatasetView::new(base_r.slice(s![..n, ..]), base_t.slice(s![..n]));
+        let got = catch_unwind(AssertUnwindSafe(|| {
+            let (a, b) = ds.split_with_ratio(r);
+            (a.nsamples(), b.nsamples())
+        }));
+        match got {
+            Ok((a, b)) => {
+                ctx.require(a == want && a + b == n, "split_first_ceil", "ceil_grid", || format!("n={} ratio={:?} ({}): first part {} + {}, ceil of the single precision product is {}", n, r, hex32(r), a, b, want));
+                format!("ok {}", a)
+            }
+            Err(_) => {
+                if r >= 0.0 && r <= 1.0 {
+                    ctx.fail("no_panic", "ceil_grid", format!("split_with_ratio panicked for n={} ratio={:?}", n, r));
+                }
+                "panic".to_string()
+            }
+        }
+    });
+}
+
+fn ceil_grid(em: &mut Em, rng: &mut Rng) {
+    let nmax = if em.thorough() { 2000 } else { 400 };
+    let base_r = Array2::<f64>::zeros((nmax + 1, 1));
+    let base_t = Array1::<usize>::zeros(nmax + 1);
+    let mut ratios: Vec<f32> = vec![];
+    for j in 0..=16 {
+        ratios.push(j as f32 / 16.0);
+    }
+    for j in 0..=10 {
+        ratios.push(j as f32 / 10.0);
+    }
+    for j in 0..=7 {
+        ratios.push(j as f32 / 7.0);
+    }
+    let mut all: Vec<f32> = vec![];
+    for r in ratios {
+        all.push(r);
+        if r > 0.0 {
+            all.push(f32::from_bits(r.to_bits() - 1));
+        }
+        all.push(f32::from_bits(r.to_bits() + 1));
+    }
+    all.extend_from_slice(&[-0.5, f32::NAN, 1.25, f32::INFINITY, f32::NEG_INFINITY, -0.0]);
+    // quick: every ratio for every third n (offset by the seed) + all n for the tenths; thorough: full grid
+    let off = rng.below(3);
+    for n in 0..=nmax {
+        for (k, r) in all.iter().enumerate() {
+            if em.thorough() || n % 3 == off || (n + k) % 7 == 0 {
+                ceil_case(em, &base_r, &base_t, n, *r);
+            }
+        }
+        // the boundary ratios k/n and their neighbours
+        if n > 0 {
+            for _ in 0..if em.thorough() { 6 } else { 2 } {
+                let x = rng.below(n + 1) as f32 / n as f32;
+                let r = match rng.below(3) {
+                    0 => f32::from_bits(x.to_bits().saturating_sub(1)),
+                    1 => f32::from_bits(x.to_bits() + 1),
+                    _ => x,
+                };
+                ceil_case(em, &base_r, &base_t, n, r);
+            }
+        }
+    }
+}
+
+/// sample counts beyond 2^24, where `n as f32` itself rounds (zero-width records and unit targets
+/// make such datasets free)
+fn ceil_large(em: &mut Em, rng: &mut Rng) {
+    let cnt = if em.thorough() { 4000 } else { 400 };
+    for i in 0..cnt {
+        let bits = 24 + rng.below(17);
+        let n = match i % 4 {
+            0 => (1usize << bits) + rng.below(5),
+            1 => (1usize << bits) + (1usize << (bits - 24)) / 2 + rng.below(3),
+            _ => (1usize << bits) + rng.below(1usize << bits),
+        };
+        let r = match rng.below(4) {
+            0 => rng.below(17) as f32 / 16.0,
+            1 => rng.below(11) as f32 / 10.0,
+            2 => 1.0,
+            _ => rng.unit() as f32,
+        };
+        em.case(format!("ceil n={} r={}", n, hex32(r)), |ctx| {
+            let want = ((n as f32) * r).ceil() as usize;
+            let recs = Array2::<f64>::zeros((n, 0));
+            let tg = Array1::<()>::default(n);
+            let ds = DatasetView::new(recs.view(), tg.view());
+            let got = catch_unwind(AssertUnwindSafe(|| {
+                let (a, b) = ds.split_with_ratio(r);
+                (a.nsamples(), b.nsamples())
+            }));
+            match got {
+                Ok((a, b)) => {
+                    ctx.require(a == want && a + b == n, "split_first_ceil", "ceil_large", || format!("n={} ratio={:?}: first part {} + {}, want {}", n, r, a, b, want));
+                    format!("ok {}", a)
+                }
+                // n as f32 may round up, so ceil(n as f32 * 1.0) can exceed n: not covered
+                Err(_) => "panic".to_string(),
+            }
+        });
+    }
+}
+
+pub fn run(em: &mut Em, rng: &mut Rng) {
+    let (hist, nmax, maxlen) = if em.thorough() { (150000, 24, 12) } else { (15000, 10, 6) };
+    for _ in 0..hist {
+        history(em, rng, nmax, maxlen);
+    }
+    ceil_grid(em, rng);
+    ceil_large(em, rng);
+}
